@@ -4,8 +4,10 @@ import re
 from collections import defaultdict, Counter
 from lib.facts import CallGraph, find, is_node, path_of, render, render_stmt, last_seg
 from lib import fxn as X
+from lib import alpha
 from lib.kernel import Kernel, Unrecognised, show, roots_in, root_of
 from lib.mirq import Slice, edge_dominates
+from lib.mirflow import Flow
 from lib.dispatch import dispatchers
 
 TECHNIQUE = ("deviant-sibling partition of the LossyFrom/LosslessInto impl bodies (normalised by their own type pair) against a frozen class table; kernel normal "
@@ -32,7 +34,10 @@ ALLOWED = {
 
 
 def norm_body(it):
-    body = "; ".join(render_stmt(s) for s in it["body"])
+    # parameters and bound locals are spelled canonically (value / val, val2 ..), `if let` is read as the two-arm `match` it abbreviates:
+    # the frozen forms below describe what the body computes, not how its names are spelled
+    ast = alpha.unwrap_arm_blocks(alpha.desugar(alpha.rename(it["body"], alpha.canon_names(it))))
+    body = "; ".join(render_stmt(s) for s in ast)
     tr = last_seg(it["trait"])
     targ = X.type_args(it["trait"])
     other = targ[0] if targ else "?"
@@ -123,31 +128,75 @@ def run(F, rep, tier):
     reshapers = [f for f in cg.bodies if re.search(r"convert::mat_to_mat::create_reshape\w*$", f)]
     rep.floor("C12-R3", "reshape constructor", len(reshapers), 1)
     nsites = 0
+    crate_prefix = "mech_interpreter::"
+
+    def is_product(sl, o):
+        r = sl.roots(o)
+        return any((x[0] == "op" and str(x[1]).startswith("Mul")) or (x[0] == "call" and re.search(r"::product$", x[1])) for x in r)
+
+    def count_cmp(fl, sl, kind, payload, depth=1):
+        """'Eq' / 'Ne' when the condition compares two element counts (products), directly or inside a private bool helper"""
+        if kind == "cmp" and payload[0] in ("Eq", "Ne"):
+            if is_product(sl, payload[1]) and is_product(sl, payload[2]):
+                return payload[0]
+            return None
+        if kind == "call":
+            blk, t = payload
+            cal = t.get("f") or t["tf"]
+            m = re.search(r"PartialEq::(eq|ne)$", t["tf"])
+            if m and len(t["args"]) == 2 and is_product(sl, t["args"][0]) and is_product(sl, t["args"][1]):
+                return "Eq" if m.group(1) == "eq" else "Ne"
+            kb = cg.bodies.get(cal)
+            if depth > 0 and kb is not None and not kb.pub and cal.startswith(crate_prefix) and kb.locals and kb.locals[0] == "bool":
+                kfl = Flow(kb)
+                if len(kfl.live_defs(0)) == 1:
+                    k2, p2, pol2 = kfl.cond([0, ""])
+                    op = count_cmp(kfl, kfl.sl, k2, p2, depth - 1)
+                    if op:
+                        return op if pol2 else ("Ne" if op == "Eq" else "Eq")
+        return None
+
+    def count_guards(b):
+        """CFG edges (switch block, target) taken exactly when the two element counts are equal"""
+        fl = Flow(b)
+        out = []
+        for i in range(len(b.blocks)):
+            be = fl.bool_edges(i)
+            if not be:
+                continue
+            kind, payload, pol = fl.cond(be[0])
+            op = count_cmp(fl, fl.sl, kind, payload)
+            if op:
+                val = (op == "Eq") if pol else (op != "Eq")
+                out.append((i, be[1][val]))
+        return out
+    guard_cache = {}
+    callers_of = None
     for f, b in cg.bodies.items():
         calls = [(i, t) for i, t in b.calls() if (t.get("f") or t["tf"]) in reshapers]
         if not calls or f in reshapers:
             continue
-        sl = Slice(b)
-        # comparisons of two products
-        guards = []
-        defs = sl.defs
-        for i, blk in enumerate(b.blocks):
-            t = blk["t"]
-            if t["k"] != "switch" or not isinstance(t["on"], list):
-                continue
-            for bi, s in defs.get(t["on"][0], []):
-                if s.get("rk") == "bin" and s.get("op") == "Eq":
-                    prods = 0
-                    for o in s["src"]:
-                        r = sl.roots(o)
-                        if any(x[0] == "op" and str(x[1]).startswith("Mul") for x in r):
-                            prods += 1
-                    if prods == 2:
-                        true_t = t["else"] if all(v == 0 for v, _ in t["targets"]) else [tg for v, tg in t["targets"] if v != 0][0]
-                        guards.append((i, true_t))
+        guards = count_guards(b)
         for i, t in calls:
             nsites += 1
             ok = any(edge_dominates(b, g, tt, i) for g, tt in guards)
+            if not ok and not b.pub and f.startswith(crate_prefix):
+                # the call sits in a private helper: the guard may have stayed with the (only) callers
+                if callers_of is None:
+                    callers_of = defaultdict(list)
+                    for f2, b2 in cg.bodies.items():
+                        for i2, t2 in b2.calls():
+                            callers_of[t2.get("f") or t2["tf"]].append((f2, i2))
+                cs = callers_of.get(f, [])
+                if cs:
+                    ok = True
+                    for f2, i2 in cs:
+                        if f2 not in guard_cache:
+                            guard_cache[f2] = count_guards(cg.bodies[f2])
+                        if not any(edge_dominates(cg.bodies[f2], g, tt, i2) for g, tt in guard_cache[f2]):
+                            ok = False
+                    if ok:
+                        rep.note("C12-R3-guard-in-callers", {"helper": f, "callers": sorted({c[0] for c in cs})[:5]})
             rep.check(ok, "C12-R3", "%s:count-guard" % f.split("::")[-1],
                       "%s calls the reshape constructor (line %d) on a path that is not guarded by `rows*cols == rows'*cols'`: a shape annotation with a different element count truncates or pads instead of failing" % (f, t["l"]),
                       "%s:%d" % (b.file, t["l"]), sample={"caller": f, "guards": len(guards)})
@@ -166,6 +215,11 @@ def run(F, rep, tier):
                 e = e[1][-1][1] if e[1][-1][0] == "expr" else None
             if is_node(e) and e[0] == "ret":
                 e = e[1]
+            if is_node(e) and e[0] == "path" and "::" not in e[1]:
+                # `let result = match .. { .. }; result`: the named local stands for its initialiser
+                inits = [st[2] for st in it["body"] if st[0] == "let" and len(st) > 2 and st[2] is not None and any(b[1] == e[1] for b in find(st[1], "pident"))]
+                if len(inits) == 1:
+                    e = inits[0]
             if is_node(e) and e[0] == "match":
                 tails.append(e)
         for m in tails:
